@@ -251,7 +251,7 @@ def E.ty : E → Ty
 def Bi.ok : Bi → Bool
   | .si v => decide (SiRange v)
   | .ui v => decide (UiRange v)
-  | .d b => decide (b < two64)
+  | .d b => decide (b < two64) && decide (b / 2 ^ 52 % 2048 ≠ 2047)      -- finite doubles only
 
 def E.wt : E → Bool
   | .zv _ => true
@@ -690,5 +690,69 @@ def evalZ (cst : Bool) : (k : Nat) → (p : ZLoc) → E → M
     match a.zleaf? with
     | some i => fnShZ cst o p (.v i) n
     | none => fun h => (evalZ cst k p a h).bind (fnShZ cst o p p n)
+
+
+/-! ### comparisons on mpz (`__gmp_binary_equal/less/greater`, `__gmp_cmp_function`, mpirxx.h:933–1118, 1289)
+
+  `mpz_cmp*` return an int of which only the sign is specified; the model keeps the sign. -/
+
+namespace CmpF
+/-- sign of `mpz_cmp(z, w)`, `mpz_cmp_ui(z, l)`, `mpz_cmp_si(z, l)`, `mpz_cmp_d(z, d)` -/
+def zArg (h : Heap) (z : ZLoc) : ZArg → Option Int
+  | .loc w => some (zcmp (h z) (h w))
+  | .bi (.ui l) => some (zcmp (h z) (Int.ofNat l))
+  | .bi (.si l) => some (zcmp (h z) l)
+  | .bi (.d d) => (dval d).map fun r => qcmp (h z) r
+/-- `__gmp_cmp_function::eval(a, b)`: a built-in on the left negates `mpz_cmp_xx(z, l)` -/
+def cmp (h : Heap) : ZArg → ZArg → Option Int
+  | .loc z, b => zArg h z b
+  | .bi c, .loc z => (zArg h z (.bi c)).map fun r => -r
+  | .bi _, .bi _ => none
+def equal (h : Heap) : ZArg → ZArg → Option Bool
+  | .loc z, b => (zArg h z b).map (· == 0)
+  | .bi c, .loc z => (zArg h z (.bi c)).map (· == 0)
+  | .bi _, .bi _ => none
+def less (h : Heap) : ZArg → ZArg → Option Bool
+  | .loc z, b => (zArg h z b).map (· < 0)
+  | .bi c, .loc z => (zArg h z (.bi c)).map (· > 0)
+  | .bi _, .bi _ => none
+def greater (h : Heap) : ZArg → ZArg → Option Bool
+  | .loc z, b => (zArg h z b).map (· > 0)
+  | .bi c, .loc z => (zArg h z (.bi c)).map (· < 0)
+  | .bi _, .bi _ => none
+end CmpF
+
+def b2i (b : Bool) : Int := if b then 1 else 0
+
+/-- the operators `== != < <= > >=` and `cmp` (mpirxx.h:3316–3333) -/
+def fnCmpZ (o : Cmp) (a b : ZArg) (h : Heap) : Option Int :=
+  match o with
+  | .eq => (CmpF.equal h a b).map b2i
+  | .ne => (CmpF.equal h a b).map fun r => b2i (!r)
+  | .lt => (CmpF.less h a b).map b2i
+  | .le => (CmpF.greater h a b).map fun r => b2i (!r)
+  | .gt => (CmpF.greater h a b).map b2i
+  | .ge => (CmpF.less h a b).map fun r => b2i (!r)
+  | .cmp => CmpF.cmp h a b
+
+/-- `__gmp_expr<T, T> const& temp(expr)` (mpirxx.h:3098, 3109): binds to the object itself when the
+    operand is an `mpz_class`, otherwise a temporary `mpz_class` is constructed from the expression -/
+def bindZ (cst : Bool) (k : Nat) (e : E) (h : Heap) : Option (ZLoc × Heap) :=
+  match e.zleaf? with
+  | some i => some (.v i, h)
+  | none => (evalZ cst (k + 1) (.v k) e h).map fun h' => (.v k, h')
+
+/-- a comparison statement whose class operands are mpz-typed; `K` = number of variables -/
+def execCmpZ (cst : Bool) (K : Nat) (o : Cmp) (a b : Opnd) (h : Heap) : Option Int :=
+  match a, b with
+  | .ex a, .ex b =>
+      (bindZ cst K a h).bind fun (la, h1) => (bindZ cst (K + 1) b h1).bind fun (lb, h2) => fnCmpZ o (.loc la) (.loc lb) h2
+  | .ex a, .bi c => (bindZ cst K a h).bind fun (la, h1) => fnCmpZ o (.loc la) (.bi c) h1
+  | .bi c, .ex b => (bindZ cst K b h).bind fun (lb, h1) => fnCmpZ o (.bi c) (.loc lb) h1
+  | .bi _, .bi _ => none
+
+/-- `sgn(e)` (mpirxx.h:2988): `mpz_sgn` of the bound object -/
+def execSgnZ (cst : Bool) (K : Nat) (a : E) (h : Heap) : Option Int :=
+  (bindZ cst K a h).map fun (la, h1) => zsgn (h1 la)
 
 end Mpir.Cxx
